@@ -31,7 +31,9 @@ def c03(tier, seed):
     obs += ao
     go_, gcmd_, glog_, _ = units_verus.run_unit("bf_getters")
     obs += go_
-    cmd = cmd + " ; " + vcmd + " ; " + lcmd + " ; " + pcmd + " ; " + scmd + " ; " + acmd + " ; " + gcmd_
+    bo_, bcmd_, blog_, _ = units_verus.run_unit("base_fields")
+    obs += bo_
+    cmd = cmd + " ; " + vcmd + " ; " + lcmd + " ; " + pcmd + " ; " + scmd + " ; " + acmd + " ; " + gcmd_ + " ; " + bcmd_
     prep = dict(prep, bf_alloc_unit=[dict(l, unit="bf_alloc") for l in vlog])
     meta = {
         "checker_cmd": cmd,
@@ -48,6 +50,7 @@ def c03(tier, seed):
             "bindgen/ir/comp.rs: CompInfo::is_packed (whether bit-fields are allocated with packed rules; callback iteration desugared by rule R16)",
             "bindgen/codegen/struct_layout.rs: StructLayoutTracker::pad_to_bitfield_unit, saw_bitfield_unit (unit layout; the unit lands at the clang offset of its first bit-field), align_to_latest_field and saw_field_with_layout (the running offset that placement is computed from: never rounded up inside a packed record), the prelude of saw_field (member_layout_for_tracker, statements R18: the size a plain member adds to the running offset is its C size, also for an array of over-aligned elements - a later bit-field unit is padded from that offset), saw_base (after a base class the running offset is the end of that base placed at its own alignment)",
             "bindgen/codegen/mod.rs: the accessor-emitting statement of <Bitfield as FieldCodegen>::codegen and Bitfield::extend_ctor_impl (unit bf_accessors, rule R4q): getter, setter, raw getter, raw setter (wrapper-union and const-generic forms) and the constructor step all address the bit-field's own unit field, offset_into_unit and width, in that order",
+            "bindgen/codegen/mod.rs: the body of the base-class loop of <CompInfo as CodeGenerator>::codegen (unit base_fields, block R18): the layout tracker hears of a base class exactly when a field is emitted for it - an empty or virtual base does not move the running offset that the padding in front of a later bit-field unit is computed from",
             "bindgen/ir/comp.rs: CompInfo::compute_bitfield_units (unit bf_getters): the allocation of bit-field units runs with exactly the packing CompInfo::is_packed reports",
             "bindgen/ir/comp.rs: Bitfield::{offset, bitfield_width, is_public, offset_into_unit, width} (unit bf_getters): code generation reads the stored clang offset, width and offset-into-unit unchanged - for zero-width separators too",
             "bindgen/codegen/mod.rs: the unit-start closure of <BitfieldUnit as FieldCodegen>::codegen (unit bf_unit_start, rule R18 brace-less closure: unit start = clang offset of the field - its offset into the unit)",
@@ -182,7 +185,7 @@ def _verus_prop(prop, tier, seed, unit_filters, meta_extra, extra_obs=None):
 
 
 def c02(tier, seed):
-    return _verus_prop("C02", tier, seed, [("layout", None, None), ("prim_types", None, None), ("packed", None, None), ("repr", None, None), ("clang_layout", None, None), ("union_repr", None, None), ("builtin_ty", None, None), ("bf_alloc", r"::bitfields_to_allocation_units(@clang_offsets)?::", None), ("type_layout", None, None), ("known_layouts", None, None)], {
+    return _verus_prop("C02", tier, seed, [("layout", None, None), ("prim_types", None, None), ("packed", None, None), ("repr", None, None), ("clang_layout", None, None), ("union_repr", None, None), ("builtin_ty", None, None), ("bf_alloc", r"::bitfields_to_allocation_units(@clang_offsets)?::", None), ("type_layout", None, None), ("known_layouts", None, None), ("base_fields", None, None)], {
         "trusted_base": LAYOUT_TRUST,
         "functions_under_contract": LAYOUT_FNS + [
             "bindgen/codegen/helpers.rs: ast_ty::int_kind_rust_type, ast_ty::float_kind_rust_type (unit prim_types: fixed-width kinds get a Rust integer of the same width and sign; platform kinds the std::os::raw alias documented as equivalent; wchar_t / long double / __float128 a type of exactly the C size)",
@@ -191,6 +194,7 @@ def c02(tier, seed):
             "bindgen/clang.rs: Cursor::offset_of_field, Type::{clang_size_of, clang_align_of, size, align, fallible_size, fallible_align, fallible_layout} (unit clang_layout: the numbers handed to the IR are libclang's 64-bit values, unchanged, for every non-negative value; negative codes are errors; the two documented work-arounds)",
             "bindgen/codegen/mod.rs: utils::type_from_named (unit prim_types: the <stdint.h>/<stddef.h> typedef names map to the Rust primitive of the same width and signedness)",
             "bindgen/ir/context.rs: the kind-mapping statement of BindgenContext::build_builtin_ty (unit builtin_ty, let-statement R18): every libclang builtin type kind gets the bindgen kind of the same C type; complex only over floating types (found and repaired F12)",
+            "bindgen/codegen/mod.rs: the body of the base-class loop of <CompInfo as CodeGenerator>::codegen (unit base_fields, shared with C03): a base without storage gets no field and leaves the tracker alone; one with storage gets exactly one field and one saw_base",
             "bindgen/ir/comp.rs: CompInfo::each_known_field_layout (unit known_layouts; the FnMut callback is a sink, rule R16): the #pragma pack detection of is_packed is handed the layout of EVERY member whose layout is known, in order - zero-sized members (flexible arrays) included, they still carry an alignment",
             "bindgen/ir/ty.rs: Type::layout (unit type_layout, shared with C06; rule R31): the layout every padding / alignment / blob computation starts from is clang's whenever clang computed one, and otherwise only an exact derivation",
             "bindgen/ir/comp.rs: CompInfo::is_rust_union and bindgen/codegen/mod.rs: wrap_union_field_if_needed (unit union_repr): a Rust `union` only for defined unions with --untagged-union whose members are all Copy or may be ManuallyDrop-wrapped; in it every member keeps the size/alignment of its C type; otherwise members are zero-sized markers over the blob of the tail statement",
